@@ -43,7 +43,7 @@ RULE = ("(UPGrad | DualProj with pref vectors and (norm_eps, reg_eps) pairs | MG
         "decades, duplicates, zero rows, imbalanced Pareto-stationary) x scale x dtype, the scale log-uniform over "
         "many decades for EVERY aggregator in both dtypes (MGDA, which has no norm_eps: 1e-9..1e9 in float32, 1e-30..1e30 "
         "in float64; the others from norm_eps/10 upwards: everything in the code must be relative to s) + a 'rate' "
-        "family: MGDA(epsilon=0, max_iters in {100,1000,3000}) on stationary / imbalanced-stationary / antiparallel "
+        "family: MGDA(epsilon=0, max_iters in {100,1000,3000}) on stationary / imbalanced-stationary / antiparallel / long-row (first Frank-Wolfe step of size 1 onto a vertex that is not the min-norm point) "
         "matrices at those scales, where the mean violates the rate bound; oracle = entry-wise lower bound of J.A(J) by the stated "
         "allowance, min-norm point by support enumeration. distinct = (aggregator spec, matrix spec); non-trivial = "
         "s >= norm_eps, m >= 2 and some pair of rows has a negative inner product")
@@ -152,6 +152,8 @@ def cases(tier, seed, focus=None):
         spec = {"name": "MGDA", "epsilon": 0.0, "max_iters": rng.choice([100, 1000, 1000, 3000])}
         m, n = rng.randint(2, 6), rng.randint(2, 8)
         kind = rng.choice(["stationary", "imbstationary", "imbstationary", "antiparallel"])
+        if i % 4 == 3:
+            kind, m = "longrow", rng.randint(3, 5)
         mat = {"kind": kind, "m": m, "n": n, "seed": rng.randrange(10**6), "dtype": dtype,
                "scale": 10.0 ** _wide_exp(rng, dtype, spec)}
         if kind == "imbstationary":
